@@ -101,9 +101,12 @@ Definition check_build_h (inp : input) (user : bool) (time : N) (descr : list N)
 
 (* ------------------------------------------------------------------ call histories *)
 
+(* how a call that accepts AsDataSource was given its data: bytes in memory, or the path of a file with these bytes *)
+Inductive source := SBytes | SFile.
+
 Inductive op :=
-| OConn (ls : list cline)       (* read_conn *)
-| OLex (rs : list rec)          (* read_lexicon *)
+| OConn (s : source) (ls : list cline)       (* read_conn *)
+| OLex (s : source) (rs : list rec)          (* read_lexicon *)
 | OResolve                      (* resolve (no inline split units in the modelled stream: nothing to do) *)
 | OCompile.                     (* compile into a sink that accepts everything *)
 
@@ -126,6 +129,12 @@ Variable F : bfacts.
    and does so only for system dictionaries (else: for user dictionaries too) *)
 Variable limits_follow_on_error : bool.
 Variable user_limits_fixed : bool.
+(* the arm of read_conn for a file path / for bytes returns (or propagates the error) on its own when reading failed, i.e.
+   before the dimensions are handed to the lexicon (else: both arms only produce the value the common continuation uses).
+   Both routes end in the same parser (fact read_routes_reach_same_parser), so the source plays no other role *)
+Variable conn_file_returns_early : bool.
+Variable conn_bytes_returns_early : bool.
+Definition returns_early (s : source) : bool := match s with SFile => conn_file_returns_early | SBytes => conn_bytes_returns_early end.
 
 (* the cost lines of read_conn, with what a failing line leaves behind *)
 Fixpoint read_lines_st (c : conn) (ls : list cline) : conn * res unit :=
@@ -189,14 +198,14 @@ Definition compile_dict (st : hstate) : res dict :=
 (* one call: the builder afterwards and what the call returned (a dictionary for a successful compile) *)
 Definition step (st : hstate) (o : op) : hstate * res (option dict) :=
   match o with
-  | OConn ls =>
+  | OConn s ls =>
       let '(c, seen, r) := conn_read_st (mkConn (hs_nl st) (hs_nr st) (hs_stores st)) ls in
-      let follow := (match r with Ok _ => true | _ => limits_follow_on_error end) && negb (hs_user st && user_limits_fixed) in
+      let follow := (match r with Ok _ => true | _ => limits_follow_on_error && negb (returns_early s) end) && negb (hs_user st && user_limits_fixed) in
       (mkH (hs_user st) (hs_nsys st) (hs_sys_nl st) (hs_sys_nr st) (c_nl c) (c_nr c) (c_stores c)
            (if follow then c_nl c else hs_liml st) (if follow then c_nr c else hs_limr st)
            (hs_entries st) (hs_conn_seen st || seen),
        match r with Ok _ => Ok None | Err => Err | Panic => Panic end)
-  | OLex rs =>
+  | OLex _ rs =>
       let '(es, ok) := parse_records_st rs in
       (mkH (hs_user st) (hs_nsys st) (hs_sys_nl st) (hs_sys_nr st) (hs_nl st) (hs_nr st) (hs_stores st)
            (hs_liml st) (hs_limr st) (hs_entries st ++ es) (hs_conn_seen st),
@@ -220,7 +229,11 @@ End WithFacts.
    the documented precondition of validity -- a system dictionary compiled without any matrix has a 0x0 matrix *)
 Definition matrix_known (st : hstate) : bool := hs_user st || hs_conn_seen st.
 
-Definition history := run_history gen_bfacts BuildGuards.conn_limits_follow_on_error BuildGuards.conn_limits_fixed_for_user.
+Definition history := run_history gen_bfacts BuildGuards.conn_limits_follow_on_error BuildGuards.conn_limits_fixed_for_user
+                                  BuildGuards.conn_file_route_returns_early BuildGuards.conn_bytes_route_returns_early.
+
+(* the same calls with every source replaced by bytes in memory *)
+Definition as_bytes (o : op) : op := match o with OConn _ ls => OConn SBytes ls | OLex _ rs => OLex SBytes rs | x => x end.
 
 (* ------------------------------------------------------------------ correspondence entry for histories *)
 
@@ -248,7 +261,8 @@ Fixpoint check_calls (hdr_fits : bool) (st : hstate) (ops : list op) (obs : list
   match ops, obs with
   | [], [] => true
   | o :: t, ob :: tb =>
-      let sr := step gen_bfacts BuildGuards.conn_limits_follow_on_error BuildGuards.conn_limits_fixed_for_user st o in
+      let sr := step gen_bfacts BuildGuards.conn_limits_follow_on_error BuildGuards.conn_limits_fixed_for_user
+                     BuildGuards.conn_file_route_returns_early BuildGuards.conn_bytes_route_returns_early st o in
       check_call hdr_fits (matrix_known st) (snd sr) ob && check_calls hdr_fits (fst sr) t tb
   | _, _ => false
   end.
